@@ -53,7 +53,13 @@ _runs = cases
 def cases(tier):  # noqa: F811
     from .c12 import h_select, h_de
 
-    cs = _runs(tier)
+    from .tstep import tree_cases
+    cs = _runs(tier) + tree_cases(PROPERTY, tier, hibernation_values=(False,))
+    for c in tree_cases(PROPERTY, tier, hibernation_values=(False,))[:6]:
+        c2 = dict(c)
+        c2["params"] = dict(c["params"], maximize=True)
+        c2["name"] = c["name"] + ".maximize"
+        cs.append(c2)
     cs.append(dict(name="order.n3.w1", fn=h_order, params=dict(n=3, wrappers=1), profile="fp", budget_s=900, weight=10))
     cs.append(dict(name="order.n2.w3", fn=h_order, params=dict(n=2, wrappers=3), profile="fp", budget_s=900))
     cs.append(dict(name="selection_keeps_best.fp.n2.k1", fn=h_select, params=dict(n=2, k_elites=1), profile="fp", budget_s=900))
